@@ -242,7 +242,7 @@ fn eval(w: &mut World, p: &P13, rec: &mut Rec) -> bool {
                     }
                     _ => {
                         if !out.is_ok() {
-                            rec.viol_kf("C13_proportional_deposit_refused", format!("stableswap proportional deposit tol={:?}", tol.map(|t| t * 100 / E18)), format!("{:?}: a deposit in exact pool proportion under tolerance {:?} was refused: {}", p, tol, out.err_text()));
+                            rec.viol_kf("C13_proportional_deposit_refused", format!("{:?} tol={:?}", p, tol), format!("{:?}: a deposit in exact pool proportion under tolerance {:?} was refused: {}", p, tol, out.err_text()));
                         }
                     }
                 }
